@@ -372,7 +372,7 @@ Qed.
 Lemma FI_do_call s t c : LkS s -> FI s -> FI (do_call s t c).
 Proof.
   intros HL HF. unfold do_call. destruct (find_task (tasks s) t) as [x|] eqn:Ef; auto.
-  destruct c.
+  destruct c; cbn [nl_started nl_closed cont_closed running_process send_command set_trace].
   - destruct (nl_started s); [apply (FI_free_finish s); auto|]. eapply FI_acquire; eauto.
   - eapply FI_acquire; eauto.
   - eapply FI_acquire; eauto.
